@@ -54,6 +54,7 @@ type gconn struct {
 	rdClosed    bool
 	gotOff      int
 	relayClosed bool
+	toldEnd     bool // the relay has half-closed or closed this conn: the endpoint sees end-of-stream
 	readEnded   bool
 	fault       string
 	// deadlines set by the relay (SetReadDeadline / SetWriteDeadline / SetDeadline) and the
@@ -229,6 +230,7 @@ func (c *gconn) Write(p []byte) (int, error) {
 func (c *gconn) Close() error {
 	c.mu.Lock()
 	defer c.mu.Unlock()
+	c.toldEnd = true
 	if !c.relayClosed {
 		c.relayClosed = true
 		c.rec.add(fw.Event{"ev": "RelayClose", "e": c.name})
@@ -244,6 +246,9 @@ func (c gconnCW) CloseWrite() error {
 	_, _, arr := c.g.enter(c.name + ".CloseWrite")
 	defer arr.finish()
 	c.rec.add(fw.Event{"ev": "RelayCloseWrite", "e": c.name})
+	c.mu.Lock()
+	c.toldEnd = true
+	c.mu.Unlock()
 	return nil
 }
 
@@ -344,6 +349,12 @@ func (c *gconn) end(how string) {
 	c.cond.Broadcast()
 }
 
+func (c *gconn) told() bool {
+	c.mu.Lock()
+	defer c.mu.Unlock()
+	return c.toldEnd
+}
+
 func (c *gconn) isOpen() bool {
 	c.mu.Lock()
 	defer c.mu.Unlock()
@@ -399,6 +410,11 @@ type bidiSpec struct {
 	Via   string  `json:"via"`
 	Unit  int     `json:"unit"`
 	Flow  int     `json:"flow,omitempty"` // completion: this many seconds of scripted time with continued traffic first
+	// completion with peers that react (reactPhase) instead of the driver half-closing both endpoints;
+	// Cause/Who: if no endpoint has ended in the behaviour, endpoint Who ends by Cause first
+	React bool    `json:"react,omitempty"`
+	Cause string  `json:"cause,omitempty"`
+	Who   string  `json:"who,omitempty"`
 	Steps []bstep `json:"steps"`
 }
 
@@ -412,7 +428,11 @@ func driveBidi(env *fw.Env, sp bidiSpec) *fw.Trace {
 	conns["B"].skew = conns["A"].skew
 	shA, shB := sp.Steps[0].ShA, sp.Steps[0].ShB
 	cw := map[string]bool{"A": halfCloseReaches(shA), "B": halfCloseReaches(shB)}
-	rec.add(fw.Event{"ev": "BStart", "conn": "fake", "via": sp.Via, "shA": shA, "shB": shB, "sc": ""})
+	sc := ""
+	if sp.React {
+		sc = "reactivePeers"
+	}
+	rec.add(fw.Event{"ev": "BStart", "conn": "fake", "via": sp.Via, "shA": shA, "shB": shB, "sc": sc, "cwA": cw["A"], "cwB": cw["B"]})
 	done, cleanup := startRelay(sp.Via, "tcp", shaped(conns["A"], shA), shaped(conns["B"], shB))
 	abort := func(status, note string) *fw.Trace {
 		conns["A"].kill()
@@ -465,15 +485,23 @@ func driveBidi(env *fw.Env, sp bidiSpec) *fw.Trace {
 			g.free()
 			flow(sp.Flow, sp.Unit, conns["A"], conns["B"])
 		}
-		for _, e := range []string{"A", "B"} {
-			if conns[e].isOpen() {
-				conns[e].end("halfclose")
+		if sp.React {
+			g.free()
+			if conns["A"].isOpen() && conns["B"].isOpen() {
+				conns[sp.Who].end(sp.Cause)
 			}
-		}
-		g.free()
-		select {
-		case ret = <-done:
-		case <-time.After(watchdog):
+			ret = reactPhase(map[string]endpoint{"A": conns["A"], "B": conns["B"]}, cw, done)
+		} else {
+			for _, e := range []string{"A", "B"} {
+				if conns[e].isOpen() {
+					conns[e].end("halfclose")
+				}
+			}
+			g.free()
+			select {
+			case ret = <-done:
+			case <-time.After(watchdog):
+			}
 		}
 	}
 	for _, e := range []string{"A", "B"} {
@@ -513,6 +541,9 @@ type scriptSpec struct {
 	IdleMs int    `json:"idleMs,omitempty"`
 	GapMs  int    `json:"gapMs,omitempty"`
 	Sc     string `json:"sc,omitempty"`
+	// React: after the ops the endpoints that are still open are peers that react (reactPhase) instead
+	// of being half-closed by the driver
+	React bool `json:"react,omitempty"`
 }
 
 // rflow keeps traffic going in REAL time: `steps` times { pause gap; every endpoint that is still
@@ -548,6 +579,37 @@ type endpoint interface {
 	send(n int)
 	end(how string)
 	progress() (sent, got int, wrOpen, rdClosed bool)
+	told() bool // the endpoint has seen end-of-stream / its conn closed by the relay
+}
+
+// reactPhase plays peers that REACT to what the relay tells them: an endpoint whose conn can be
+// half-closed only waits; once it has been told that the other side is over (it sees end-of-stream
+// or its conn closed) it closes. An endpoint whose conn cannot be half-closed cannot be told before
+// the final Close: the driver ends it (gently) right away. At least one endpoint has ended before.
+// Returns the relay's Returned event, or nil when the watchdog expired.
+func reactPhase(eps map[string]endpoint, cw map[string]bool, done <-chan fw.Event) fw.Event {
+	for _, e := range []string{"A", "B"} {
+		if _, _, open, _ := eps[e].progress(); open && !cw[e] {
+			eps[e].end("halfclose")
+		}
+	}
+	deadline := time.After(watchdog)
+	tick := time.NewTicker(time.Millisecond)
+	defer tick.Stop()
+	for {
+		select {
+		case ret := <-done:
+			return ret
+		case <-deadline:
+			return nil
+		case <-tick.C:
+		}
+		for _, e := range []string{"A", "B"} {
+			if _, _, _, closed := eps[e].progress(); !closed && eps[e].told() {
+				eps[e].end("close")
+			}
+		}
+	}
 }
 
 func (c *gconn) progress() (int, int, bool, bool) {
@@ -612,6 +674,13 @@ func runScript(sp scriptSpec, rec *recorder, eps map[string]endpoint, done <-cha
 		}
 	}
 	settle(eps)
+	if sp.React {
+		cw := map[string]bool{"A": true, "B": true}
+		if sp.Kind != "tcp" {
+			cw = map[string]bool{"A": halfCloseReaches(sp.ShA), "B": halfCloseReaches(sp.ShB)}
+		}
+		return reactPhase(eps, cw, done)
+	}
 	for _, e := range []string{"A", "B"} {
 		if _, _, open, _ := eps[e].progress(); open {
 			eps[e].end("halfclose")
@@ -631,7 +700,8 @@ func driveFree(env *fw.Env, sp scriptSpec) *fw.Trace {
 	g.free()
 	a, b := newGconn("A", rec, g, 1), newGconn("B", rec, g, 1)
 	b.skew = a.skew
-	rec.add(fw.Event{"ev": "BStart", "conn": "fake", "via": sp.Via, "shA": sp.ShA, "shB": sp.ShB, "sc": sp.Sc})
+	rec.add(fw.Event{"ev": "BStart", "conn": "fake", "via": sp.Via, "shA": sp.ShA, "shB": sp.ShB, "sc": sp.Sc,
+		"cwA": halfCloseReaches(sp.ShA), "cwB": halfCloseReaches(sp.ShB)})
 	done, cleanup := startRelayIdle(sp.Via, "tcp", shaped(a, sp.ShA), shaped(b, sp.ShB), time.Duration(sp.IdleMs)*time.Millisecond)
 	ret := runScript(sp, rec, map[string]endpoint{"A": a, "B": b}, done)
 	if ret != nil && ret["ev"] == "unsettled" {
@@ -666,7 +736,14 @@ type tcpEnd struct {
 	got      int
 	wrOpen   bool
 	rdClosed bool
+	sawEnd   bool // the peer socket has read end-of-stream / an error: the endpoint has been told
 	fault    string
+}
+
+func (t *tcpEnd) told() bool {
+	t.mu.Lock()
+	defer t.mu.Unlock()
+	return t.sawEnd
 }
 
 func tcpPair() (peer, relay *net.TCPConn, err error) {
@@ -704,6 +781,12 @@ func (t *tcpEnd) reader() {
 			t.mu.Unlock()
 		}
 		if err != nil {
+			t.mu.Lock()
+			if !t.rdClosed { // (not the echo of the endpoint's own close)
+				t.sawEnd = true
+				t.rec.add(fw.Event{"ev": "PeerEOF", "e": t.name})
+			}
+			t.mu.Unlock()
 			return
 		}
 	}
@@ -780,7 +863,7 @@ func driveTCP(env *fw.Env, sp scriptSpec) *fw.Trace {
 		}
 		ends[e] = &tcpEnd{name: e, rec: rec, peer: p, relay: r, wrOpen: true}
 	}
-	rec.add(fw.Event{"ev": "BStart", "conn": "tcp", "via": sp.Via, "pipe": sp.Pipe, "sc": sp.Sc})
+	rec.add(fw.Event{"ev": "BStart", "conn": "tcp", "via": sp.Via, "pipe": sp.Pipe, "sc": sp.Sc, "cwA": true, "cwB": !sp.Pipe})
 	for _, t := range ends {
 		go t.reader()
 	}
